@@ -351,6 +351,8 @@ func icmp6StartStart(v int, seed int64) (string, string) {
 	lla := netip.AddrFrom16([16]byte{0xfe, 0x80, 0, 0, 0, 0, 0, 0, 0, 0, 0, 0, 0, 0, byte(seed), 0x77})
 	target := packet.Addr{MAC: mac(seed, 4), IP: lla}
 	op := func() { h.StartHunt(target) }
+	const loopFn = "icmp_spoofer.(*Handler6).spoofLoop"
+	before := CountGoroutines(loopFn) // loops of earlier handlers may still be winding down: they only ever decrease the count
 	ga, gb, trace, stuck := Pair(&h.Mutex, op, op, v)
 	trace = fmt.Sprintf("A = B = icmp_spoofer.Handler6.StartHunt(%s), both queued behind a holder of the handler mutex; ", target.MAC) + trace
 	if stuck {
@@ -358,6 +360,16 @@ func icmp6StartStart(v int, seed int64) (string, string) {
 	}
 	if p := panics(ga, gb); p != "" {
 		return p, trace
+	}
+	loops := 0
+	for i := 0; i < 10; i++ {
+		time.Sleep(2 * time.Millisecond)
+		if n := CountGoroutines(loopFn) - before; n > loops {
+			loops = n
+		}
+	}
+	if loops >= 2 {
+		return fmt.Sprintf("StartHunt is not idempotent per MAC: %d spoof loops were started by two StartHunt calls for one MAC", loops), trace
 	}
 	if n := h.VerifHuntLen(); n != 1 {
 		return fmt.Sprintf("StartHunt is not idempotent per MAC: the hunt list has %d entries after two StartHunt calls for one MAC", n), trace
